@@ -48,7 +48,7 @@ CLASSES = {
                           "bases": [], "src": ("exporters.numeric_trajectory_exporter", "TrajectoryTriplet")},
     "Problem": {"fields": {"objects": ("ref", "opaque"), "initial_state_predicates": ("ref", "opaque"),
                            "initial_state_fluents": ("ref", "opaque")}, "bases": [], "src": ("models.pddl_problem", "Problem")},
-    "Action": {"fields": {"name": "str", "signature": ("ref", "dict_str_ref"), "preconditions": ("ref", "opaque"),
+    "Action": {"fields": {"name": "str", "signature": ("ref", "dict_str_ref"), "preconditions": ("ref", "CompoundPrecondition"),
                           "discrete_effects": ("ref", "opaque"), "numeric_effects": ("ref", "opaque"),
                           "conditional_effects": ("ref", "opaque"), "universal_effects": ("ref", "opaque")}, "bases": [],
                "src": ("models.pddl_action", "Action")},
@@ -56,7 +56,7 @@ CLASSES = {
     "Operator": {"fields": {"action": ("ref", "Action"), "domain": ("ref", "Domain"), "grounded_call_objects": ("ref", "list_str"),
                             "grounded": "bool", "problem_objects": ("ref", "opaque"), "grounded_effects": ("ref", "opaque"),
                             "lifted_universal_effects": ("ref", "opaque"), "logger": ("ref", "opaque"),
-                            "grounded_preconditions": ("ref", "opaque")}, "bases": [], "src": ("models.pddl_operator", "Operator")},
+                            "grounded_preconditions": ("ref", "GroundedPrecondition")}, "bases": [], "src": ("models.pddl_operator", "Operator")},
     "MultiAgentTrajectoryExporter": {"fields": {"domain": ("ref", "Domain"), "allow_invalid_actions": "bool"}, "bases": [],
                                      "src": ("multi_agent.multi_agent_trajectory_exporter", "MultiAgentTrajectoryExporter")},
     "MultiAgentTrajectoryTriplet": {"fields": {"previous_state": ("ref", "State"), "joint_action": ("ref", "opaque"), "next_state": ("ref", "State")},
@@ -65,6 +65,11 @@ CLASSES = {
     "Precondition": {"fields": {"binary_operator": "str", "operands": ("ref", "opaque"), "equality_preconditions": ("ref", "set_pairs"),
                                 "inequality_preconditions": ("ref", "set_pairs")}, "bases": [],
                      "src": ("models.pddl_precondition", "Precondition")},
+    "CompoundPrecondition": {"fields": {"root": ("ref", "Precondition")}, "bases": [], "src": ("models.pddl_precondition", "CompoundPrecondition")},
+    "GroundedPrecondition": {"fields": {"_lifted_precondition": ("ref", "CompoundPrecondition"), "_grounded_precondition": ("ref", "CompoundPrecondition"),
+                                        "domain": ("ref", "Domain"), "action": ("ref", "Action"), "logger": ("ref", "opaque"),
+                                        "_parameter_map": ("ref", "dict_str_str")}, "bases": [],
+                             "src": ("models.grounded_precondition", "GroundedPrecondition")},
     "ENHSPParser": {"fields": {}, "bases": [], "src": ("exporters.enhsp_output_parser", "ENHSPParser")},
     "MetricFFParser": {"fields": {}, "bases": [], "src": ("exporters.ff_output_parser", "MetricFFParser")},
 }
